@@ -18,6 +18,9 @@ CHECKS = {
  "C04": dict(engine="treemc", cat="model_checking", sec="5/C04",
    text="Explicit-state search (k=2 quick, 3 thorough, all 8 configurations, including empty non-nil maps / ordered maps / leaf-lists): every state is deep-copied and checked for Model equality, for shared mutable memory by an exhaustive pointer-graph walk (pointees, maps, slice backing arrays reachable from both objects), and by overwriting everything reachable from the copy (then from the original) and comparing the other side with a pristine twin. MergeStructs gets the same walk against both inputs on all ordered pairs of k<=1 states x 4 option sets.",
    technique="explicit-state BFS over tree-building sequences; aliasing decided by pointer-graph intersection plus in-place mutation against a twin", note=TREE_NOTE),
+ "C12": dict(engine="treemc", cat="model_checking", sec="5/C12",
+   text="Transition oracle on explicit-state search states (k<=1 full alphabet, k<=2 focused alphabet; thorough k<=3/full): DeleteNode is executed on a fresh real tree for every schema node path instantiated with domain keys (containers, presence containers, whole lists, partial keys, present and absent list entries, ordered-list entries, leaves, leaf-lists, key leaves) and compared with reference deletion on the path-to-value Model: data below the path gone, every leaf / entry / presence container outside unchanged, entries and presence containers on the way pruned only when empty, GetNode finds nothing, second call is a no-op.",
+   technique="explicit-state transition exploration (state x delete-path) on the real implementation against a reference deletion on the model", note=TREE_NOTE),
  "C14": dict(engine="treemc", cat="model_checking", sec="5/C14",
    text="Explicit-state search (k=2 quick, 3 thorough, all 8 configurations): every state is pruned as built and after BuildEmptyTree on the root and on every struct in the tree (incl. keyed, unkeyed and ordered list entries); oracle: returns normally, data Model unchanged, no container without set descendants left anywhere, second call changes nothing.",
    technique="explicit-state BFS over tree-building sequences; invariant + idempotence law evaluated in every state", note=TREE_NOTE),
